@@ -63,6 +63,7 @@ static void read_all(rd_job* j) {
     carquet_reader_t* rd = mode == 2 ? carquet_reader_open_buffer(IMG.p, IMG.n, &opt, &err) : carquet_reader_open(PATH, &opt, &err);
     if (!rd) { snprintf(d, 160, "open:%d", err.code); j->hash = mc_mix(h, (uint64_t)err.code); return; }
     carquet_batch_reader_config_t cfg; carquet_batch_reader_config_init(&cfg); cfg.batch_size = s->bs; cfg.num_threads = j->nthreads_cfg;
+    static const int32_t PROJ8[3] = { 2, 0, 1 }; if (s->shape == 8) { cfg.column_indices = PROJ8; cfg.num_columns = 3; }
     carquet_batch_reader_t* br = carquet_batch_reader_create(rd, &cfg, &err);
     if (!br) { snprintf(d, 160, "create:%d", err.code); j->hash = mc_mix(h, 77 + (uint64_t)err.code); carquet_reader_close(rd); return; }
     int64_t rows_total = 0;
@@ -77,7 +78,8 @@ static void read_all(rd_job* j) {
             const void* data; const uint8_t* nulls; int64_t cnt; if (carquet_row_batch_column(b, i, &data, &nulls, &cnt) != CARQUET_OK) { h = mc_mix(h, 0xbad); continue; }
             h = mc_mix(h, (uint64_t)cnt); int64_t nn = 0; for (int64_t r = 0; r < cnt; r++) if (!nulls || !((nulls[r >> 3] >> (r & 7)) & 1)) nn++;
             if (nulls) h = mc_mix(h, mc_hash(nulls, (size_t)(cnt + 7) / 8, 3));
-            int pt = s->shape == 5 ? PT_INT64 : i == 0 ? PT_INT32 : i == 1 ? PT_INT64 : (s->shape == 3 ? PT_BYTE_ARRAY : PT_DOUBLE);
+            int fi = s->shape == 8 && i < 3 ? PROJ8[i] : i;      /* file column behind batch column i */
+            int pt = s->shape == 5 ? PT_INT64 : fi == 0 ? PT_INT32 : fi == 1 ? PT_INT64 : (s->shape == 3 ? PT_BYTE_ARRAY : PT_DOUBLE);
             if (pt == PT_BYTE_ARRAY) { const carquet_byte_array_t* ba = data; for (int64_t k = 0; k < nn; k++) { h = mc_mix(h, (uint64_t)ba[k].length); if (ba[k].length > 0) h = mc_mix(h, mc_hash(ba[k].data, (size_t)ba[k].length, 5)); } }
             else h = mc_mix(h, mc_hash(data, (size_t)nn * (size_t)ref_type_width(pt, 0), 4));
         }
@@ -211,11 +213,12 @@ static void enumerate(void) {
     int maxbound = 3;
     for (int bound = 0; bound <= maxbound; bound++) {
         char st[64]; snprintf(st, sizeof st, "deviation-bound-%d", bound); mc_stage(st);
-        for (int kind = 0; kind < 2; kind++) for (int mode = 0; mode < 4; mode++) for (int ci = 0; ci < 5; ci++) for (int nti = 0; nti < 6; nti++) for (int bsi = 0; bsi < 2; bsi++) for (int shape = 0; shape < 8; shape++) {
+        for (int kind = 0; kind < 2; kind++) for (int mode = 0; mode < 4; mode++) for (int ci = 0; ci < 5; ci++) for (int nti = 0; nti < 6; nti++) for (int bsi = 0; bsi < 2; bsi++) for (int shape = 0; shape < 9; shape++) {
             static const int NTA[] = { 2, 3, 4, 8, 16, 1 }; int nt = NTA[nti];
             scn_t s = { kind, mode, CODECS[ci], nt, bsi ? 12 : 4, shape, bound };
             if (nt == 1) continue;
-            if (shape >= 6 && !(kind == 0 && nt <= 3 && ci <= 2 && bound <= 1 && mode != 3 && (shape == 6 || (bsi == 1 && mode == 0)))) continue;      /* 6: a damaged page (the error must be reported under every schedule); 7: the caller inside its own critical section */
+            if (shape == 8 && !(kind == 0 && nt == 2 && ci <= 1 && bound <= 1 && mode != 3 && bsi == 1)) continue;      /* 8: the base file read through a projection that is not in file order (columns 2, 0, 1) */
+            if (shape >= 6 && shape <= 7 && !(kind == 0 && nt <= 3 && ci <= 2 && bound <= 1 && mode != 3 && (shape == 6 || (bsi == 1 && mode == 0)))) continue;      /* 6: a damaged page (the error must be reported under every schedule); 7: the caller inside its own critical section */
             if (mode == 3 && !(kind == 1 && nt == 2 && shape == 0 && bsi == 1 && ci <= 1 && bound <= 2)) continue;      /* mixed I/O paths: two independent readers, up to two deviations */
             if (ci >= 3 && (bound > 1 || nt > 3 || bsi == 0 || (shape != 0 && shape != 3) || (kind == 1 && (nt != 2 || shape != 0)))) continue;      /* GZIP and LZ4: whole-page batches, 2-3 threads, two shapes, c <= 1 */
             if (bound == 3 && !(kind == 0 && mode == 0 && nt == 2 && ((shape == 5 && ci == 1 && bsi == 1) || (mc_thorough() && shape == 0 && ci == 0 && bsi == 0)))) continue;     /* three deviations: the two-column large-page file (a failed prefetch is retried in the main region, so a wrong result needs a third switch) */
